@@ -50,6 +50,10 @@ def _run(args):
     undo = mw.instrument_actor_run(log) if behaviour != "none" else (lambda: None)
     try:
         rec, info = vloop.run(run_worker, sc, extra_setup=extra)
+    except Exception as e:  # noqa: BLE001
+        # an operation issued by the scenario itself (declare, enqueue ...) raised: with subscribers that is a difference
+        # from the run without them, not a failure of the harness
+        return [], {"!scenario": [("raised", type(e).__name__)]}, {}, f"the scenario's own operations raised {type(e).__name__}: {e}"
     finally:
         undo()
     # per message: the sequence of everything that happened to it (operations with their outcome, observed moves,
@@ -98,6 +102,52 @@ async def _two_connections():
     return log.events
 
 
+async def _client_sequence(behaviour="ok"):
+    """one client task issuing operations one after the other, some of which fail (a queue that was never declared) or are
+    cancelled (a consume() that times out): the operations that follow in the same task are top-level operations like any
+    other -- one before signal each, an after signal iff they succeed"""
+    from harness import mw
+    from repid import Connection, InMemoryBucketBroker, InMemoryMessageBroker
+    from repid.data._buckets import ArgsBucket
+    log = mw.MwLog()
+    conn = Connection(InMemoryMessageBroker(), InMemoryBucketBroker(), InMemoryBucketBroker(use_result_bucket=True))
+    mw.instrument_connection(log, conn, 1)
+    conn.middleware.add_middleware(mw.recording_middleware(log, 1, behaviour))
+    await conn.connect()
+    b = conn.message_broker
+    RK = b.ROUTING_KEY_CLASS
+    for step in range(2):
+        try:
+            await b.enqueue(RK(id_=f"lost{step}", topic="t", queue="never-declared"))        # raises
+        except KeyError:
+            pass
+        await b.queue_declare(queue_name="q")
+        await b.enqueue(key=RK(id_=f"a{step}", topic="t", queue="q"), payload="{}")
+        await conn.args_bucket_broker.store_bucket(id_=f"b{step}", payload=ArgsBucket(data="x"))
+        await conn.args_bucket_broker.get_bucket(f"b{step}")
+        c = b.get_consumer("q", ["t"])
+        await c.start()
+        key, _, _ = await c.consume()
+        try:
+            await asyncio.wait_for(c.consume(), 0.05)                                         # cancelled
+        except asyncio.TimeoutError:
+            pass
+        try:
+            await b.ack(RK(id_="x", topic="t", queue="never-declared"))                          # raises
+        except KeyError:
+            pass
+        await b.ack(key)
+        await conn.args_bucket_broker.delete_bucket(id_=f"b{step}")
+        await c.finish()
+    return log.events
+
+
+def _client(behaviour):
+    from harness import vloop
+    vloop.setup()
+    return vloop.run(lambda loop: _client_sequence(behaviour))
+
+
 def _two(_):
     from harness import vloop
     vloop.setup()
@@ -108,25 +158,28 @@ def run(tier: str, seed: int, replay=None) -> int:
     ck = Check("C17", tier, seed)
     rng = random.Random(seed)
     ck.rule = ("complete job life cycles (outcomes x retries x results x args bucket) on the in-memory brokers with every wrapped operation "
-               "instrumented; each scenario also re-run with no / raising / slow / sync subscribers for the differential comparison; plus a "
+               "instrumented; each scenario also re-run with no / raising / slow / sync / mixed / uncallable (asking for arguments the signal does not carry) subscribers for the differential comparison; plus a "
                "two-connection scenario; non-trivial = the scenario contains a nested wrapped operation or a failing one")
     r = tlc.run_tlc("Middleware", "MC_Middleware.cfg", timeout=900)
     if not r.ok:
         ck.model_violation(r, "Middleware")
     ck.add_tlc(r, "Middleware: OncePerOp, BeforePrecedesEffect, AfterIffSuccess, NestedSilent, RightConnection")
     scs = scenarios(tier, rng)
-    behaviours = ["trace", "none", "raise", "slow", "sync", "mixed"]
+    behaviours = ["trace", "none", "raise", "slow", "sync", "mixed", "greedy"]
     jobs = [(sc, b) for sc in scs for b in behaviours]
     with pool() as ex:
         outs = list(ex.map(_run, jobs, chunksize=2))
         two = list(ex.map(_two, [0]))[0]
     traces, owners = [], []
     for (sc, b), (events, view, results, exc) in zip(jobs, outs):
-        if b not in ("none", "sync"):     # (sync subscribers run in executor threads: no call attribution)
+        if b not in ("none", "sync", "greedy"):     # (sync subscribers run in executor threads: no call attribution; greedy ones are never called)
             traces.append(events)
             owners.append((sc, b))
     traces.append(two)
     owners.append(("two-connections", "ok"))
+    for b in ("ok", "raise", "slow"):
+        traces.append(_client(b))
+        owners.append(("client-sequence with failing and cancelled operations", b))
     v = tlc.validate_traces("Trace_Middleware", "Trace_Middleware.cfg", traces)
     ck.add_tlc(v.result, f"Trace_Middleware: {len(traces)} instrumented runs")
     ck.traces += len(traces)
